@@ -312,7 +312,7 @@ def _scenario(doc, incdoc, use_base, boom_mode, res, rc, handler_desc, boom, bas
         state["armed"] = True
         b._verif_boom = (boom_mode, boom) if boom_mode else None
         res.count("second_renders_checked")
-        if c05.short(got2) != c05.short(exp2):
+        if _short(got2) != _short(exp2):
             res.violate("second-render-differs", "%s\nsecond render (not armed) gave %r, expected %r" % (what, c05.short(got2), c05.short(exp2)), replay_case=rc)
             return
         m3 = model(True, cache)
@@ -325,7 +325,7 @@ def _scenario(doc, incdoc, use_base, boom_mode, res, rc, handler_desc, boom, bas
             got3 = ("out", t.render_unicode(**ctx))
         except (Exception, tdoc.BoomBase) as e:
             got3 = ("exc", e)
-        if c05.short(got3) != c05.short(exp3):
+        if _short(got3) != _short(exp3):
             res.violate("third-render-differs", "%s\nthird render (armed again) gave %r, expected %r" % (what, c05.short(got3), c05.short(exp3)), replay_case=rc)
         if run_extras:
             # last, because these renders use other lookups whose templates share the cache id of `t`
@@ -426,7 +426,7 @@ def unhandled_extras(lk, t, ctx, m1, exp1, boom, res, what, rc, main_text, inc_t
         except Exception as e:
             gi = ("exc", e)
         res.count("include_handler_checked")
-        if c05.short(gi) != c05.short(expi):
+        if _short(gi) != _short(expi):
             res.violate("include-error-handler", "%s\nwith include_error_handler returning True render gave %r, expected %r" % (what, c05.short(gi), c05.short(expi)), replay_case=rc)
 
 
@@ -743,6 +743,14 @@ def gen_cases(tier, seed):
     per = 2
     for i in range(n // per):
         yield {"kind": "docs", "seed": seed, "index": i, "n": per, "depth": 2 if tier == "quick" else 3}
+
+
+def _short(x):
+    """outcome for comparison; a TypeError of a call that does not bind is compared by type (CPython words it with the
+    qualified name of the generated function, the reference interpreter with inspect's)"""
+    if x[0] == "exc" and isinstance(x[1], TypeError):
+        return ("exc", "TypeError")
+    return c05.short(x)
 
 
 def run_case(case):
